@@ -363,9 +363,8 @@ int array::set(const value &val)
 }
 void *array::append(size_t len, const void *data)
 {
-	void *base = mpt_array_append(this, len);
-	if (!base) return 0;
-	return data ? memcpy(base, data, len) : base;
+	/* source is resolved before array content may move */
+	return mpt_array_append(this, len, data);
 }
 void *array::insert(size_t off, size_t len, const void *data)
 {
